@@ -26,8 +26,8 @@ class Abstractor:
         self.sites = {}
 
     def mul2(self, a, b):
-        if a.get_id() > b.get_id():
-            a, b = b, a
+        # argument order is kept as written (an order by ast id would differ between two instances of the same
+        # pointwise term at different keys and break congruence); commutativity is added per pair of sites
         key = ("m", a.get_id(), b.get_id())
         t = self.sites.get(key)
         if t is None:
@@ -35,6 +35,9 @@ class Abstractor:
             t = f(a, b)
             self.sites[key] = (t, a, b)
             s = self.s
+            rev = self.sites.get(("m", b.get_id(), a.get_id()))
+            if rev is not None:
+                s.add(t == rev[0])
             s.add((t == 0) == z3.Or(a == 0, b == 0))
             s.add(z3.Implies(z3.Or(z3.And(a > 0, b > 0), z3.And(a < 0, b < 0)), t > 0))
             s.add(z3.Implies(z3.Or(z3.And(a > 0, b < 0), z3.And(a < 0, b > 0)), t < 0))
